@@ -236,10 +236,34 @@ example :
     specR trPair false [] [.wideChar 0xD83D, .wideChar 0xDE00, .wideChar 0x61] = [0xF0, 0x61] := by
   decide
 
+/-- **A concrete pair-aware transcoder.**  The UTF-16 → UTF-8 model `trUtf8` (pairs ↦ 4 bytes, other units ↦ 1–3 bytes)
+is additive over every cut that does not separate a surrogate pair. -/
+theorem utf8_pair_additive : PairAdditive trUtf8 := trUtf8_pairAdditive
+
+/-- … and it is *not* additive (a cut between the halves of a pair changes the bytes), so `callback_concat` does not
+apply to it while `callback_concat_pair_aware` does. -/
+theorem utf8_not_additive_counterexample : ¬ Additive trUtf8 := by
+  intro h
+  have := h.2 [0xD83D] [0xDE00]
+  revert this
+  decide
+
+/-- **callback_concat for UTF-8 output (fixed stream).**  For every history of print-writer operations, every buffer size
+and flush-handler setting, the callback receives exactly the UTF-8 of the runs of UTF-16 units written between
+synchronisation points — whatever units the serializer's writes and the stream buffer cut the text at. -/
+theorem callback_concat_utf8 (ops : List WOp) (bufSize : Nat) (fh : Bool) :
+    received ((wrunH trUtf8 ops (fresh bufSize fh)).close trUtf8) = specR trUtf8 false [] ops :=
+  callback_concat_pair_aware trUtf8 trUtf8_pairAdditive ops bufSize fh
+
 /-- **C-API data buffer.**  `XalanTransformToData` hands back the stream's bytes followed by a NUL
 and no length: a C caller reads back exactly the output iff it has no zero byte. -/
 theorem capi_data_cstring (out : Bytes) (h : ∀ b ∈ out, b ≠ 0) : cstr (capiData out) = out :=
   cstr_capiData out h
+
+/-- With the length reported next to the pointer (`proposed/C05-capi-data-length.diff`:
+`XalanTransformToDataWithLength`) the caller reads back exactly the output, whatever bytes it contains. -/
+theorem capi_data_with_length (out : Bytes) : (capiData out).take out.length = out := by
+  simp [capiData]
 
 /-- With `encoding="UTF-16"` the data buffer cannot be read back as a C string: for the output
 `<a/>` a caller sees 3 of 10 bytes.  (Known finding `C05-capi-data-utf16`; replayed through the
@@ -383,6 +407,35 @@ theorem dom_targets_equal_partial (nm : Str) (a : List (Str × Str)) (kids : For
   simp only [AttrsOrdered, Bool.and_eq_true, beq_iff_eq] at ho
   rw [ho.1.1]
 
+/-- **dom_targets_equal, CDATA sections.**  For every result with one document element and every delivery of its
+character data as `characters` and `cdata` pieces (any fragmentation, CDATA pieces anywhere, any attribute order):
+the DOM built by `FormatterToXercesDOM` holds a tree `X` (CDATASection nodes are nodes of their own) whose XPath view
+`norm X` is exactly the tree `FormatterToSourceTree` builds from the same events (up to the native attribute order). -/
+theorem dom_targets_equal_cdata (nm : Str) (a : List (Str × Str)) (kids : Forest) :
+    ∃ X, xbuild (.startElement nm a :: (devents false kids ++ [.endElement])) = .ok (.elem nm a X .nil) ∧
+      tbuild true (.startElement nm a :: (devents false kids ++ [.endElement])) = .ok (.elem nm (orderAttrs a) (norm X) .nil) := by
+  refine ⟨_, xbuild_root_d false nm a kids, ?_⟩
+  rw [stree_target_fixed_eq_norm _ nm a (asText kids) (by simp [tAsText, devents_false_asText]), accX_nil_norm]
+
+/-- **dom_targets_equal, ignorable white space.**  Same with pieces delivered through `ignorableWhitespace`: the DOM
+target makes them Text nodes, the source-tree target white-space text nodes of their own class; forgetting the node
+class (`asText`) and merging adjacent text (`norm`) — the XPath view — the two trees are equal. -/
+theorem dom_targets_equal_iws (nm : Str) (a : List (Str × Str)) (kids : Forest) :
+    ∃ X Y, xbuild (.startElement nm a :: (devents true kids ++ [.endElement])) = .ok (.elem nm a X .nil) ∧
+      tbuild true (.startElement nm a :: (devents true kids ++ [.endElement])) = .ok (.elem nm (orderAttrs a) Y .nil) ∧
+      norm X = norm (asText Y) := by
+  refine ⟨_, norm kids, xbuild_root_d true nm a kids, ?_, ?_⟩
+  · rw [devents_true_tevents]; exact tbuild_root true nm a kids
+  · rw [accX_nil_norm, norm_asText_norm]
+
+/-- non-vacuity: `<t>a<![CDATA[b]]><!--m-->c</t>`: three nodes in the DOM before the comment … merged in the source tree -/
+example :
+    xbuild (.startElement [116] [] :: (devents false (.text [97] (.iws [98] (.comment [109] (.text [99] .nil)))) ++ [.endElement])) =
+      .ok (.elem [116] [] (.text [97] (.text [98] (.comment [109] (.text [99] .nil)))) .nil) ∧
+    tbuild true (.startElement [116] [] :: (devents false (.text [97] (.iws [98] (.comment [109] (.text [99] .nil)))) ++ [.endElement])) =
+      .ok (.elem [116] [] (.text [97, 98] (.comment [109] (.text [99] .nil))) .nil) := by
+  decide
+
 /-- non-vacuity, and what happens outside the hypotheses: `<t>ab<![CDATA[c]]>d</t>` into a DOM keeps three nodes -/
 example :
     AttrsOrdered (.elem [116] [("xmlns:q".toList.map Char.toNat, [117]), ([105], [49])] (.text [97] (.text [98] (.comment [109] .nil))) .nil) = true ∧
@@ -446,6 +499,33 @@ theorem pi_scan_order_independent (ps qs : List (PI.Str × PI.Str)) (h : ps.Perm
   have hnq : (PI.names qs).Nodup := (List.Perm.nodup_iff (h.map (fun x : PI.Str × PI.Str => x.1))).mp hn
   rw [pi_scan_eq_lookup ps hp hn, pi_scan_eq_lookup qs hpq hnq]
   simp only [PI.typeOk, PI.hrefOf, PI.lookupP_perm h hn]
+
+/-- **Tokenizer ↔ tokens.**  A PI written as pseudo-attributes — names and quoted values free of delimiter characters,
+any non-empty run of delimiters containing the `=` between them, at least one delimiter between pseudo-attributes
+(optional after the last) — is cut by `StringTokenizer` into exactly name token, quoted-value token, … -/
+theorem pi_tokens_render (fixed : Bool) (ps : List PI.Piece) (h : PI.WF fixed ps) :
+    PI.tokens fixed (PI.renderPieces ps) = PI.toks (PI.pairsOf ps) :=
+  PI.tokens_render fixed ps h
+
+/-- **Order independence, end to end.**  Two xml-stylesheet PIs written with the same pseudo-attributes (distinct names)
+in any order, with any quotes kept in the value tokens, any blanks around `=` and between pseudo-attributes: the
+lookup of `XSLTEngineImpl::process` (unchanged or fixed) chooses the same href, namely the `href` pseudo-attribute iff
+the `type` pseudo-attribute is an accepted media type. -/
+theorem pi_order_independent_end_to_end (fixed : Bool) (ps qs : List PI.Piece) (hps : PI.WF fixed ps) (hqs : PI.WF fixed qs)
+    (hperm : (PI.pairsOf ps).Perm (PI.pairsOf qs)) (hp : PI.Plain (PI.pairsOf ps)) (hn : (PI.names (PI.pairsOf ps)).Nodup) :
+    PI.chosen fixed [some (PI.renderPieces ps)] = PI.chosen fixed [some (PI.renderPieces qs)] ∧
+    PI.chosen fixed [some (PI.renderPieces ps)] =
+      (if PI.typeOk (PI.pairsOf ps) && !(PI.hrefOf (PI.pairsOf ps)).isEmpty then some (PI.hrefOf (PI.pairsOf ps)) else none) := by
+  have e1 := pi_tokens_render fixed ps hps
+  have e2 := pi_tokens_render fixed qs hqs
+  have s1 := pi_scan_eq_lookup _ hp hn
+  have s12 := pi_scan_order_independent _ _ hperm hp hn
+  have hc : ∀ d : PI.Str, PI.chosen fixed [some d] =
+      (if (PI.scanTokens (PI.tokens fixed d) [] {}).isOK && !(PI.scanTokens (PI.tokens fixed d) [] {}).uri.isEmpty
+       then some (PI.scanTokens (PI.tokens fixed d) [] {}).uri else none) := by
+    intro d; cases fixed <;> simp [PI.chosen, PI.scanChildren]
+  rw [hc, hc, e1, e2, ← s12, s1]
+  exact ⟨rfl, rfl⟩
 
 /-- non-vacuity + the tie between characters and tokens on concrete PIs (the tokenizer itself is checked by the `pi`
 correspondence, not by a general theorem): href first with single quotes and blanks around `=`, extra pseudo-attributes -/
